@@ -5,6 +5,8 @@
 * call_soon FIFO order is kept (asyncio documents it).
 * call_at adds a seeded sub-microsecond jitter so that timers with equal
   deadlines fire in every order across seeds.
+* optional tick: every iteration with ready callbacks advances the clock by a seeded sub-microsecond amount (a real loop
+  takes time per iteration), which lets a timer fall due between two callbacks scheduled at the same instant.
 * run_in_executor runs the function on the loop thread at a seeded later
   virtual instant (the functions baize hands over never touch loop state).
 """
@@ -48,7 +50,7 @@ class _Sel:
 
 
 class SimLoop(base_events.BaseEventLoop):
-    def __init__(self, tape, ctx=None, vcap=5000.0, step_cap=200000, exec_lat=EXEC_LAT, jitter=True):
+    def __init__(self, tape, ctx=None, vcap=5000.0, step_cap=200000, exec_lat=EXEC_LAT, jitter=True, tick=None):
         super().__init__()
         self._vnow = 0.0
         self.tape = tape
@@ -58,6 +60,9 @@ class SimLoop(base_events.BaseEventLoop):
         self.steps = 0
         self.exec_lat = exec_lat
         self.jitter = jitter
+        # a loop iteration takes time on a real machine: with tick = (choices of seconds) the clock moves by a seeded amount of that
+        # order per iteration, so that a timer can fall due BETWEEN two callbacks that became ready at the same instant
+        self.tick = tick
         self._selector = _Sel(self)
         self._clock_resolution = 1e-9
         self.errors = []
@@ -82,6 +87,10 @@ class SimLoop(base_events.BaseEventLoop):
         self.steps += 1
         if self.steps > self.step_cap:
             raise SimStepLimit("step cap %d exceeded" % self.step_cap)
+        if self.tick and self._ready:
+            d = self.tick[self.tape.draw(len(self.tick))]
+            if d:
+                self._vnow += d
         super()._run_once()
 
     def call_at(self, when, callback, *args, context=None):
